@@ -22,6 +22,18 @@ from .model import src, AnalysisError
 MAX_PATHS = 20000
 
 
+# wall-clock budget for one proof attempt of the equivalence prover (sa/equiv.py sets it; None = no budget): running out of
+# it means "not computable", which every caller already reads as "not proven"
+DEADLINE = [None]
+
+
+def check_deadline():
+    if DEADLINE[0] is not None:
+        import time
+        if time.time() > DEADLINE[0]:
+            raise Unsupported("time budget of the proof attempt used up")
+
+
 class Unsupported(Exception):
     pass
 
@@ -812,6 +824,7 @@ class Summariser(object):
                     p.frozen[x.value.id] = v
 
     def stmt(self, st, p):
+        check_deadline()
         if not isinstance(st, (ast.If, ast.For, ast.While, ast.Try, ast.With, ast.FunctionDef, ast.ClassDef, ast.AsyncFunctionDef)):
             out = self._stmt(st, p)
             for q in out:
@@ -1269,6 +1282,7 @@ def compare(tab_a, tab_b, partial=False, max_atoms=14):
     the assignments are enumerated and `tab_a` must give the expected outcome wherever `tab_b` gives one."""
     if not partial:
         for ca, oa in tab_a:
+            check_deadline()
             for cb, ob in tab_b:
                 if oa != ob and consistent(list(ca) + list(cb)):
                     return False, "when [%s]: %s   - expected: %s" % (_show(set(ca) | set(cb)), oa, ob)
